@@ -11,15 +11,13 @@ use bourse_book::{vcheck, vcover, vharnesses};
 impl<const A: usize, const L: usize> MarketEnv<A, L> {
     /// assemble an environment around a given market (harness constructor)
     pub fn verif_from_market(step_size: Nanos, market: Market<A, L>) -> Self {
+        // (constructor plus field assignments rather than a struct literal: see `Env::verif_from_book`)
         let level_2_data = market.level_2_data();
-        Self {
-            step_size,
-            market,
-            trade_vols: array::from_fn(|_| Vec::new()),
-            transactions: Vec::new(),
-            level_2_data,
-            level_2_data_records: array::from_fn(|_| Level2DataRecords::new()),
-        }
+        let mut env = Self::new(0, [1; A], step_size, true);
+        // (no drop glue for the placeholder market: it costs the solver gigabytes)
+        core::mem::forget(core::mem::replace(&mut env.market, market));
+        core::mem::forget(core::mem::replace(&mut env.level_2_data, level_2_data));
+        env
     }
     pub fn verif_queue_len(&self) -> usize {
         self.transactions.len()
